@@ -1336,7 +1336,9 @@ def forward(m: Model, d: Data):
     sleep.update_sleep(m, d)
 
   fwd_position(m, d, factorize=False)
-  d.sensordata.zero_()
+  if not (m.opt.disableflags & DisableBit.SENSOR):
+    # the sensor stages are skipped with the flag set: sensordata keeps its values
+    d.sensordata.zero_()
   sensor.sensor_pos(m, d)
   _energy_pos(m, d)
 
@@ -1373,7 +1375,8 @@ def step(m: Model, d: Data):
 def step1(m: Model, d: Data):
   """Advance simulation in two phases: before input is set by user."""
   fwd_position(m, d)
-  d.sensordata.zero_()
+  if not (m.opt.disableflags & DisableBit.SENSOR):
+    d.sensordata.zero_()
   sensor.sensor_pos(m, d)
 
   _energy_pos(m, d)
